@@ -228,7 +228,7 @@ macro_rules! parts {
             name: "limited-vs-unlimited",
             sys: &Sys,
             cfgs: match tier {
-                Tier::Quick => cfgs(&[(2, 2), (2, 3), (1, 2)], LIMITS),
+                Tier::Quick => cfgs(&[(2, 2), (2, 3)], &[Some(0), Some(1), Some(2), Some(10), Some(11)]),
                 Tier::Thorough => cfgs(&[(2, 2), (3, 2), (2, 3), (1, 2)], LIMITS),
             },
             alphabet: &alpha,
